@@ -403,7 +403,7 @@ class SrcExporter:
         if d == "match_stmt":
             return [["m"] + rx_tokens(self.match_rx(s.children[0], env)) + self.pc_tokens(pa, pp)]
         if d == "wait_stmt":
-            return [["w"] + rx_tokens(self.match_rx(s.children[0], env))]
+            return [["w"] + rx_tokens(self.match_rx(s.children[0], env)) + self.pc_tokens(pa, pp)]
         if d == "assign_stmt":
             return [["a"] + self.sact_assign(s, env)]
         if d == "append_stmt":
